@@ -2,7 +2,7 @@
    (the force exactly as the code computes it, and the mean-field force beside it);
    proofs: Proof/EhrenfestP.v. *)
 From Coq Require Import Reals List Lra.
-From MV Require Import Ops RInst Vec Cplx Mat CRing MatP Propagate PropagateP Rk4P Ehrenfest EhrenfestP.
+From MV Require Import Ops RInst Vec Cplx Mat CRing MatP Hop Propagate PropagateP Rk4P Ehrenfest EhrenfestP Traj TrajP.
 Import ListNotations.
 Open Scope R_scope.
 
@@ -43,6 +43,17 @@ Theorem C08_meanfield_power_balance : forall n (E : nat -> R) (Tm rho : FM),
   = copp ROps (csumf ROps n (fun i => csumf ROps n (fun j => cmul ROps (rho j i) (cmul ROps (cofr ROps (E i - E j)) (Tm i j))))).
 Proof. intros. apply power_balance. Qed.
 Print Assumptions C08_meanfield_power_balance.
+
+(* the assembled Ehrenfest pass (Model/Traj.step_eh, tied to Ehrenfest runs by Run/RTraj.chkE): the
+   label never changes, rho takes the same unitary step as in FSSH, and both Verlet halves use the
+   population-weighted force of the density matrix held at the start of the pass *)
+Theorem C08_full_step : forall n m dt e0 e1 lam Cm (s : tstate (T:=R)),
+  let '(s', W) := step_eh ROps n m dt e0 e1 lam Cm s in
+  pact s' = pact s /\ ptime s' = ptime s + dt /\ prho s' = exp_step ROps n lam Cm dt (prho s)
+  /\ px s' = advance_position ROps m (px s) (pv s) (eh_force_code ROps n (prho s) (eforce e0)) dt
+  /\ pv s' = advance_velocity ROps m (pv s) (eh_force_code ROps n (prho s) (eforce e0)) (eh_force_code ROps n (prho s) (eforce e1)) dt.
+Proof. exact step_eh_props. Qed.
+Print Assumptions C08_full_step.
 
 Example C08_witness : eh_force_code ROps 2 rho_w force_w = [0].
 Proof. apply ehrenfest_force_differs. Qed.
